@@ -154,7 +154,7 @@ Section Universe.
 
   (* doCommit under the commit lock.  h = persisted working set, s = start state, w = the transaction's *)
   Definition do_commit (h s w : table) : table * bool :=
-    if table_eqb h s then (w, true)                              (* ff merge *)
+    if table_eqb h s then (freeze w, true)                       (* ff merge: the transaction's table is installed *)
     else let '(m, c) := merge_tables s h w in
          if c then (h, false)                                    (* rollback, ErrRetryTransaction *)
          else (m, true).
@@ -241,8 +241,11 @@ Section Universe.
         let '(o, t') := exec_dml st (s_work s1) in
         let w1 := {| w_head := w_head w; w_ss := upd (w_ss w) i (s_with_work s1 t') |} in
         if implicit && s_auto s then             (* autocommit: the statement is its own transaction *)
-          let '(ok, e, w2) := commit_sess i w1 in
-          (if ok then o else obs_err err_retry, Some e, w2)
+          if so_err o =? err_none then
+            let '(ok, e, w2) := commit_sess i w1 in
+            (if ok then o else obs_err err_retry, Some e, w2)
+          else                                   (* a failed statement is rolled back *)
+            (o, None, {| w_head := w_head w; w_ss := upd (w_ss w) i (s_end s1) |})
         else (o, None, w1)
       end.
 
